@@ -1,5 +1,8 @@
 import WfModel.Runner
 import WfProofs.EngineReduce
+import WfProofs.ReplayRebuild
+import WfProofs.RunnerWorkers
+import WfModel.GenTickLog
 /-!
 # C11 — replaying the recorded tick log reproduces the live run state
 
@@ -10,10 +13,14 @@ commands never touch either.  Hence, at every point of every run,
 invariant (C01), so `running_steps()`/`to_dict()` computed from it describe the run.
 
 Replay in the real code (`rebuild_state_from_ticks`) uses the *current* clock instead of
-each tick's recorded time.  The model keeps the recorded times; equality "timestamps
-aside" for decisions that do not depend on elapsed time is checked on the implementation
-by the monitor (every tick of every generated run), not proved here — stated below as
-`C11_time_erasure_statement` and left open.
+each tick's recorded time.  The first part of this file keeps the recorded times (exact
+equality); the second part ("timestamps aside") is about the real function: rewind at the
+clock of the call, every tick at the clock of the call (`Engine.replayTicks`).  For retry
+policies that do not look at the elapsed time the rebuilt state equals the live one after
+blanking every `first_attempt_at` (`eraseSt`), for EVERY start state (fresh or resumed),
+schedule and pair of clocks; `running_steps()` and `ctx.to_dict()` are functions of the
+rebuilt state and describe the live run.  For elapsed-time policies (`stop_after_delay`)
+the clause is false — `C11_refuted_elapsed_time_policy`, a concrete run.
 -/
 set_option linter.unusedVariables false
 open Engine
@@ -168,3 +175,520 @@ example :
     let r := Runner.run C11.exCfg (fun _ _ _ _ => .stop) (Runner.init C11.exCfg initState 0 (some C11.startEv) none)
       [.drain, .advance 3, .workerDone 0 0 [.result none], .drain, .drain]
     (r.log.length, r.log.map (·.2)) = (3, [0, 3, 3]) := by decide
+
+/-! ## Timestamps aside: the real `rebuild_state_from_ticks` (replay at the clock of the call) -/
+
+/-- two replays of the same ticks at two clock sequences, from states that agree up to
+`first_attempt_at`, agree up to `first_attempt_at` -/
+theorem C11.replay_sim (cfg : Cfg) {pol : Policy} (hpol : TimeFree pol) :
+    ∀ (l l' : List (Tick × Int)) {s s' : State}, l.map (·.1) = l'.map (·.1) → SimSt s s' →
+      SimSt (C11.replay cfg pol s l) (C11.replay cfg pol s' l')
+  | [], [], s, s', _, h => h
+  | [], _ :: _, _, _, hl, _ => by simp at hl
+  | _ :: _, [], _, _, hl, _ => by simp at hl
+  | (t, n) :: l, (t', n') :: l', s, s', hl, h => by
+    simp only [List.map_cons, List.cons.injEq] at hl
+    obtain ⟨ht, hl⟩ := hl
+    subst ht
+    simp only [C11.replay, List.foldl_cons]
+    exact C11.replay_sim cfg hpol l l' hl (reduce_sim cfg hpol t n n' h).1
+
+/-- **the statement left open above is a theorem**: replaying a log with every time replaced by
+one clock value gives the same running flag — and (`C11.replay_sim`) the same state up to
+`first_attempt_at` -/
+theorem C11_time_erasure : C11_time_erasure_statement := by
+  intro cfg pol hpol st log clock
+  exact (C11.replay_sim cfg hpol log (log.map (fun tn => (tn.1, clock)))
+    (by simp [List.map_map, Function.comp_def]) (SimSt.refl st)).running
+
+example : (∀ s e e' f x, (fun _ _ _ _ => PolDecision.stop : Policy) s e f x = (fun _ _ _ _ => PolDecision.stop : Policy) s e' f x) :=
+  fun _ _ _ _ _ => rfl
+
+/-- start of a run from ANY broker state (fresh: `initState`; resumed: a deserialised snapshot),
+then an arbitrary schedule -/
+abbrev C11.runFrom (cfg : Cfg) (pol : Policy) (st0 : State) (now : Int) (start : Option Ev)
+    (timeout : Option Nat) (acts : List Act) : Runner :=
+  Runner.run cfg pol (Runner.init cfg st0 now start timeout) acts
+
+/-- `rebuild_state_from_ticks(init_state, ticks)`: `rewind_in_progress(init_state, now0)`, then
+`_reduce_tick(tick_i, state, clk i)`, commands dropped; `none` = the reducer raised -/
+def C11.rebuild (cfg : Cfg) (pol : Policy) (st0 : State) (now0 : Int) (clk : Nat → Int) (ticks : List Tick) :
+    Option State :=
+  (replayTicks cfg pol st0 now0 clk ticks).map (·.st)
+
+/-- **C11, timestamps aside, every history incl. resumed runs**: whatever state the run was
+started from, whatever the schedule, whatever the clock of the rebuild: rebuilding from the run's
+`init_state` and the ticks recorded so far does not raise and yields the live state after blanking
+every `first_attempt_at` — provided retry decisions do not depend on elapsed time. -/
+theorem C11_rebuild_agrees_with_live (cfg : Cfg) (pol : Policy) (hpol : TimeFree pol) (st0 : State) (now : Int)
+    (start : Option Ev) (timeout : Option Nat) (acts : List Act) (now0 : Int) (clk : Nat → Int) :
+    ∃ rebuilt, C11.rebuild cfg pol st0 now0 clk (ticksOf (C11.runFrom cfg pol st0 now start timeout acts).log) = some rebuilt ∧
+      eraseSt rebuilt = eraseSt (C11.runFrom cfg pol st0 now start timeout acts).st := by
+  obtain ⟨rep, h1, h2⟩ := rebuild_agrees cfg hpol st0 now start timeout acts now0 clk
+  exact ⟨rep.st, by simp [C11.rebuild, h1], simSt_iff_erase.mp h2⟩
+
+/-- non-vacuity: an attempt-based policy; a run with a worker in flight; the rebuild at clock 50
+carries another `first_attempt_at` than the live state (0), and nothing else differs -/
+def C11.pol0 : Policy := fun _ _ _ _ => .stop
+theorem C11.pol0_free : TimeFree C11.pol0 := fun _ _ _ _ _ => rfl
+example :
+    (C11.rebuild C11.exCfg C11.pol0 initState 50 (fun _ => 50)
+      (ticksOf (C11.runFrom C11.exCfg C11.pol0 initState 0 (some C11.startEv) none [.drain]).log)).map
+        (fun s => (s.isRunning, (s.workers 0).inProg.map (fun i => (i.wid, i.ev.uid, i.firstAt)))) = some (true, [(0, 1, 50)]) ∧
+    ((C11.runFrom C11.exCfg C11.pol0 initState 0 (some C11.startEv) none [.drain]).st.workers 0).inProg.map
+      (fun i => (i.wid, i.ev.uid, i.firstAt)) = [(0, 1, 0)] := by decide
+
+/-- **what "timestamps aside" means**: `eraseSt` blanks `first_attempt_at` of queued attempts,
+in-progress invocations (and of the waiter records inside their snapshots) and waiters — and keeps
+everything the property names: running flag, buffers, and of every queued / running / waiting
+invocation its event, worker id, snapshot of collected events, retry counters, last failure and
+recovery counts, requirements, resolution and time-out marks. -/
+theorem C11_erasure_keeps (st : State) (n : Nat) :
+    (eraseSt st).isRunning = st.isRunning ∧
+    ((eraseSt st).workers n).collected = (st.workers n).collected ∧
+    ((eraseSt st).workers n).queue.map (fun a => (a.ev, a.attempts, a.lastExc, a.lastFailedAt, a.rc)) =
+      (st.workers n).queue.map (fun a => (a.ev, a.attempts, a.lastExc, a.lastFailedAt, a.rc)) ∧
+    ((eraseSt st).workers n).inProg.map (fun i => (i.ev, i.wid, i.snapEvents, i.attempts, i.lastExc, i.lastFailedAt, i.rc)) =
+      (st.workers n).inProg.map (fun i => (i.ev, i.wid, i.snapEvents, i.attempts, i.lastExc, i.lastFailedAt, i.rc)) ∧
+    ((eraseSt st).workers n).waiters.map
+        (fun w => (w.wid, w.ev, w.waitTy, w.req, w.hasReq, w.resolved, w.timedOut, w.attempts, w.lastExc, w.lastFailedAt, w.rc)) =
+      (st.workers n).waiters.map
+        (fun w => (w.wid, w.ev, w.waitTy, w.req, w.hasReq, w.resolved, w.timedOut, w.attempts, w.lastExc, w.lastFailedAt, w.rc)) := by
+  simp [eraseSt, eraseSS, List.map_map, Function.comp_def, eraseA, eraseIP, eraseW]
+
+example : ((eraseSt (C11.runFrom C11.exCfg C11.pol0 initState 7 (some C11.startEv) none [.drain]).st).workers 0).inProg.map
+      (fun i => (i.wid, i.ev.uid, i.firstAt)) = [(0, 1, 0)] ∧
+    ((C11.runFrom C11.exCfg C11.pol0 initState 7 (some C11.startEv) none [.drain]).st.workers 0).inProg.map
+      (fun i => (i.wid, i.ev.uid, i.firstAt)) = [(0, 1, 7)] := by decide
+
+/-- the erasure function is the agreement relation the simulation proofs use, and it is idempotent -/
+theorem C11_erasure_is_agreement (a b : State) :
+    (SimSt a b ↔ eraseSt a = eraseSt b) ∧ eraseSt (eraseSt a) = eraseSt a :=
+  ⟨simSt_iff_erase, eraseSt_idem a⟩
+
+/-- **the reducer commutes with the erasure**: reducing the erased state at any clock and erasing
+gives the same as reducing the state itself and erasing; the commands agree up to time-derived
+payloads (`cE`: retry info of re-queued events, elapsed seconds of failure telemetry). -/
+theorem C11_reduce_commutes_with_erasure (cfg : Cfg) (pol : Policy) (hpol : TimeFree pol) (t : Tick) (s : State) (n n' : Int) :
+    eraseSt (reduce cfg pol t s n).1 = eraseSt (reduce cfg pol t (eraseSt s) n').1 ∧
+      (reduce cfg pol t s n).2.map cE = (reduce cfg pol t (eraseSt s) n').2.map cE :=
+  ⟨simSt_iff_erase.mp (reduce_sim cfg hpol t n n' (sim_eraseSt s)).1, (reduce_sim cfg hpol t n n' (sim_eraseSt s)).2⟩
+
+example : ((reduce C11.exCfg C11.pol0 (.addEvent { ev := C11.startEv } none) initState 9).1.workers 0).inProg.map (·.firstAt) = [9] ∧
+    ((reduce C11.exCfg C11.pol0 (.addEvent { ev := C11.startEv } none) (eraseSt initState) 4).1.workers 0).inProg.map (·.firstAt) = [4] := by
+  decide
+
+/-- so do `rewind_in_progress` (same commands) and the serialisation round trip — no guard needed -/
+theorem C11_rewind_serialise_commute_with_erasure (cfg : Cfg) (s : State) (n n' : Int) :
+    eraseSt (rewind cfg s n).1 = eraseSt (rewind cfg (eraseSt s) n').1 ∧
+      (rewind cfg s n).2 = (rewind cfg (eraseSt s) n').2 ∧
+      eraseSt (roundtrip cfg s) = eraseSt (roundtrip cfg (eraseSt s)) :=
+  ⟨simSt_iff_erase.mp (rewind_sim cfg n n' (sim_eraseSt s)).1, (rewind_sim cfg n n' (sim_eraseSt s)).2,
+    simSt_iff_erase.mp (roundtrip_sim cfg (sim_eraseSt s))⟩
+
+/-! ### `running_steps()` and `ctx.to_dict()` are functions of the rebuilt state -/
+
+/-- `ExternalContext.running_steps()`: `[s for s in state.workers if state.workers[s].in_progress]` -/
+def C11.runningSteps (cfg : Cfg) (st : State) : List Nat := activeSteps cfg st
+
+/-- **`running_steps()` describes the run**: computed from the rebuilt state (any clock) it is the
+list of steps whose live `in_progress` table is non-empty, in registration order; in particular it
+lists the step of every worker task that is alive. -/
+theorem C11_running_steps_describe_run (cfg : Cfg) (hwf : cfg.WF) (pol : Policy) (hpol : TimeFree pol) (st0 : State)
+    (h0 : IdsInv cfg st0) (now : Int) (start : Option Ev) (timeout : Option Nat) (acts : List Act)
+    (now0 : Int) (clk : Nat → Int) :
+    ∃ rebuilt, C11.rebuild cfg pol st0 now0 clk (ticksOf (C11.runFrom cfg pol st0 now start timeout acts).log) = some rebuilt ∧
+      C11.runningSteps cfg rebuilt = C11.runningSteps cfg (C11.runFrom cfg pol st0 now start timeout acts).st ∧
+      (∀ s, s ∈ C11.runningSteps cfg rebuilt ↔
+        s ∈ cfg.names ∧ ((C11.runFrom cfg pol st0 now start timeout acts).st.workers s).inProg ≠ []) ∧
+      ∀ w ∈ (C11.runFrom cfg pol st0 now start timeout acts).running, w.step ∈ C11.runningSteps cfg rebuilt := by
+  obtain ⟨rep, h1, h2⟩ := rebuild_agrees cfg hpol st0 now start timeout acts now0 clk
+  have heq : C11.runningSteps cfg rep.st = C11.runningSteps cfg (C11.runFrom cfg pol st0 now start timeout acts).st :=
+    activeSteps_sim cfg h2
+  have hmem : ∀ s, s ∈ C11.runningSteps cfg (C11.runFrom cfg pol st0 now start timeout acts).st ↔
+      s ∈ cfg.names ∧ ((C11.runFrom cfg pol st0 now start timeout acts).st.workers s).inProg ≠ [] := by
+    intro s
+    simp [C11.runningSteps, activeSteps, List.mem_filter]
+  refine ⟨rep.st, by simp [C11.rebuild, h1], heq, fun s => by rw [heq]; exact hmem s, fun w hw => ?_⟩
+  have hinv := run_runInv cfg hwf pol False acts _ (guarded_false cfg pol acts _)
+    (init_runInv cfg hwf False st0 h0 now start timeout)
+  obtain ⟨hn, ip, hip, _, _⟩ := hinv.sub w hw
+  rw [heq]
+  exact (hmem w.step).mpr ⟨hn, fun he => by rw [he] at hip; cases hip⟩
+
+example : C11.exCfg.WF ∧ IdsInv C11.exCfg initState ∧
+    C11.runningSteps C11.exCfg (C11.runFrom C11.exCfg C11.pol0 initState 0 (some C11.startEv) none [.drain]).st = [0] ∧
+    (C11.runFrom C11.exCfg C11.pol0 initState 0 (some C11.startEv) none [.drain]).running.map (·.step) = [0] ∧
+    C11.runningSteps C11.exCfg (C11.runFrom C11.exCfg C11.pol0 initState 0 (some C11.startEv) none
+      [.drain, .workerDone 0 0 [.result none], .drain]).st = [] :=
+  ⟨by unfold Cfg.WF; decide, idsInv_init _, by decide, by decide, by decide⟩
+
+def C11.eraseSerStep (s : SerStep) : SerStep :=
+  { s with queue := s.queue.map eraseA, waiters := s.waiters.map (fun w => { w with firstAt := none }) }
+
+/-- the serialised context with every `first_attempt_at` blanked -/
+def C11.eraseSer (s : SerState) : SerState :=
+  { s with workers := s.workers.map (fun p => (p.1, C11.eraseSerStep p.2)) }
+
+theorem C11.serStep_sim {a b : StepState} (h : SimSS a b) :
+    C11.eraseSerStep (serStep a) = C11.eraseSerStep (serStep b) := by
+  have hev : a.inProg.map (·.ev) = b.inProg.map (·.ev) := by
+    have := congrArg (List.map (·.ev)) h.inProg
+    simpa [List.map_map, Function.comp_def, eraseIP] using this
+  have hq : (a.queue.map serAttempt).map eraseA = (b.queue.map serAttempt).map eraseA := by
+    have e : ∀ l : List Attempt, (l.map serAttempt).map eraseA = (l.map eraseA).map serAttempt := by
+      intro l; simp [List.map_map, Function.comp_def, serAttempt_erase]
+    rw [e, e, h.queue]
+  have hw : (a.waiters.map serWaiter).map (fun w => ({ w with firstAt := none } : SerWaiter)) =
+      (b.waiters.map serWaiter).map (fun w => ({ w with firstAt := none } : SerWaiter)) := by
+    have e : ∀ l : List Waiter, (l.map serWaiter).map (fun w => ({ w with firstAt := none } : SerWaiter)) =
+        (l.map eraseW).map serWaiter := by
+      intro l; simp [List.map_map, Function.comp_def, serWaiter, eraseW]
+    rw [e, e, h.waiters]
+  simp only [C11.eraseSerStep, serStep, hq, hw, hev, h.collected]
+
+/-- `ctx.to_dict()` (its broker part): `to_serialized` of the rebuilt state -/
+def C11.toDict (cfg : Cfg) (pol : Policy) (st0 : State) (now0 : Int) (clk : Nat → Int) (ticks : List Tick) :
+    Option SerState :=
+  (C11.rebuild cfg pol st0 now0 clk ticks).map (ser cfg)
+
+/-- **`ctx.to_dict()` describes the run**: taken at any moment (any clock) from a live handler it
+is the serialisation of the live broker state, timestamps aside: same running flag, and per step
+the same queue, the same in-progress events, the same buffers and the same waiters; the context
+loaded from it agrees with the context loaded from the live state. -/
+theorem C11_to_dict_describes_run (cfg : Cfg) (pol : Policy) (hpol : TimeFree pol) (st0 : State) (now : Int)
+    (start : Option Ev) (timeout : Option Nat) (acts : List Act) (now0 : Int) (clk : Nat → Int) :
+    ∃ d, C11.toDict cfg pol st0 now0 clk (ticksOf (C11.runFrom cfg pol st0 now start timeout acts).log) = some d ∧
+      C11.eraseSer d = C11.eraseSer (ser cfg (C11.runFrom cfg pol st0 now start timeout acts).st) ∧
+      d.isRunning = (C11.runFrom cfg pol st0 now start timeout acts).st.isRunning ∧
+      d.workers.map (fun p => (p.1, p.2.inProg, p.2.collected)) =
+        (ser cfg (C11.runFrom cfg pol st0 now start timeout acts).st).workers.map (fun p => (p.1, p.2.inProg, p.2.collected)) ∧
+      eraseSt (deser cfg d) = eraseSt (roundtrip cfg (C11.runFrom cfg pol st0 now start timeout acts).st) := by
+  obtain ⟨rep, h1, h2⟩ := rebuild_agrees cfg hpol st0 now start timeout acts now0 clk
+  refine ⟨ser cfg rep.st, by simp [C11.toDict, C11.rebuild, h1], ?_, h2.running, ?_, simSt_iff_erase.mp (roundtrip_sim cfg h2)⟩
+  · simp only [C11.eraseSer, ser, h2.running, List.map_map, Function.comp_def]
+    congr 1
+    apply List.map_congr_left
+    intro s _
+    rw [C11.serStep_sim (h2.workers s)]
+  · simp only [ser, List.map_map, Function.comp_def]
+    apply List.map_congr_left
+    intro s _
+    have hev : ((rep.st.workers s).inProg.map (·.ev)) =
+        (((C11.runFrom cfg pol st0 now start timeout acts).st.workers s).inProg.map (·.ev)) := by
+      have := congrArg (List.map (·.ev)) (h2.workers s).inProg
+      simpa [List.map_map, Function.comp_def, eraseIP] using this
+    simp only [serStep, hev, (h2.workers s).collected]
+
+example :
+    (C11.toDict C11.exCfg C11.pol0 initState 50 (fun _ => 50)
+      (ticksOf (C11.runFrom C11.exCfg C11.pol0 initState 0 (some C11.startEv) none [.drain]).log)).map
+        (fun d => (d.isRunning, d.workers.map (fun p => (p.1, p.2.queue.length, p.2.inProg.map (·.uid))))) =
+      some (true, [(0, 0, [1])]) := by decide
+
+/-! ### the guard is needed: elapsed-time policies -/
+
+/-- the clause without the guard on the retry policy -/
+def C11_statement_any_policy : Prop :=
+  ∀ (cfg : Cfg) (pol : Policy) (st0 : State) (now : Int) (start : Option Ev) (timeout : Option Nat)
+    (acts : List Act) (now0 : Int) (clk : Nat → Int),
+    ∃ rebuilt, C11.rebuild cfg pol st0 now0 clk (ticksOf (C11.runFrom cfg pol st0 now start timeout acts).log) = some rebuilt ∧
+      eraseSt rebuilt = eraseSt (C11.runFrom cfg pol st0 now start timeout acts).st
+
+def C11.cfgD : Cfg := { steps := [{ name := 0, accepted := [0], numWorkers := 1, hasRetry := true }] }
+/-- `retry_policy(stop=stop_after_delay(10), wait=wait_fixed(1))` -/
+def C11.polD : Policy := fun _ elapsed _ _ => if elapsed ≥ 10 then .stop else .retry 1
+/-- the step starts at 100 and fails at 112: 12 s ≥ 10 s, no retry, the run fails -/
+def C11.actsD : List Act := [.drain, .advance 12, .workerDone 0 0 [.failed 7 112], .drain]
+
+/-- **refuted for elapsed-time policies**: the live run gave up (12 s elapsed ≥ 10 s) and is over;
+the rebuild at clock 200 stamps the start event's `first_attempt_at` with 200, sees −88 s elapsed,
+"retries", and reports a run that is still running with nothing queued or in progress. -/
+theorem C11_refuted_elapsed_time_policy : ¬ C11_statement_any_policy := by
+  intro h
+  obtain ⟨rb, h1, h2⟩ := h C11.cfgD C11.polD initState 100 (some C11.startEv) none C11.actsD 200 (fun _ => 200)
+  have hr : rb.isRunning = (C11.runFrom C11.cfgD C11.polD initState 100 (some C11.startEv) none C11.actsD).st.isRunning :=
+    (congrArg State.isRunning h2 : (eraseSt rb).isRunning = _)
+  have hlive : (C11.runFrom C11.cfgD C11.polD initState 100 (some C11.startEv) none C11.actsD).st.isRunning = false := by
+    decide
+  have hreb : (C11.rebuild C11.cfgD C11.polD initState 200 (fun _ => 200)
+      (ticksOf (C11.runFrom C11.cfgD C11.polD initState 100 (some C11.startEv) none C11.actsD).log)).map (·.isRunning) = some true := by
+    decide
+  rw [h1] at hreb
+  simp only [Option.map_some, Option.some.injEq] at hreb
+  rw [hr, hlive] at hreb
+  cases hreb
+
+example : (C11.runFrom C11.cfgD C11.polD initState 100 (some C11.startEv) none C11.actsD).outcome = some (.failed 0 7) ∧
+    ((C11.rebuild C11.cfgD C11.polD initState 200 (fun _ => 200)
+      (ticksOf (C11.runFrom C11.cfgD C11.polD initState 100 (some C11.startEv) none C11.actsD).log)).map
+        (fun s => (s.isRunning, (s.workers 0).queue.length, (s.workers 0).inProg.length))) = some (true, 0, 0) := by
+  decide
+
+/-! ### resumed runs, explicitly -/
+
+/-- one leg of a session on one `Context`: a run (start clock, optional start event, workflow
+timeout, schedule) and the clock of the `ctx.to_dict()` that ends it -/
+structure C11.Leg where
+  now : Int
+  start : Option Ev
+  timeout : Option Nat
+  acts : List Act
+  snapNow : Int
+  snapClk : Nat → Int
+
+def C11.legRun (cfg : Cfg) (pol : Policy) (init : State) (l : C11.Leg) : Runner :=
+  C11.runFrom cfg pol init l.now l.start l.timeout l.acts
+
+/-- `Context.from_dict(wf, ctx.to_dict())` at the end of the leg: the `init_state` of the next run
+(also what `workflow.run(ctx=ctx)` on a finished context computes) -/
+def C11.legNext (cfg : Cfg) (pol : Policy) (init : State) (l : C11.Leg) : State :=
+  match C11.toDict cfg pol init l.snapNow l.snapClk (ticksOf (C11.legRun cfg pol init l).log) with
+  | some d => deser cfg d
+  | none => init
+
+/-- the `init_state` and the leg of every run of a session -/
+def C11.session (cfg : Cfg) (pol : Policy) : State → List C11.Leg → List (State × C11.Leg)
+  | _, [] => []
+  | init, l :: ls => (init, l) :: C11.session cfg pol (C11.legNext cfg pol init l) ls
+
+theorem C11.deser_inProg (cfg : Cfg) (s : SerState) (n : Nat) : ((deser cfg s).workers n).inProg = [] := by
+  simp only [deser]
+  split
+  · split <;> rfl
+  · rfl
+
+/-- **resumed runs**: start from any serialised context, run, snapshot, load, run again, … any
+number of times.  For EVERY run of the session: (1) its live state is the replay of ITS recorded
+log from ITS rewound `init_state` (recorded times); (2) the real rebuild (any clock) of that log
+from that `init_state` is the live state, timestamps aside; (3) the context the next run is
+started from agrees with the serialisation of the live state; (4) a loaded `init_state` has
+nothing in progress, so its rewind only re-admits queued work. -/
+theorem C11_resumed_runs (cfg : Cfg) (pol : Policy) (hpol : TimeFree pol) (s : SerState) (legs : List C11.Leg) :
+    ∀ p ∈ C11.session cfg pol (deser cfg s) legs,
+      (C11.legRun cfg pol p.1 p.2).st =
+        C11.replay cfg pol (rewind cfg p.1 p.2.now).1 (C11.legRun cfg pol p.1 p.2).log ∧
+      (∃ rebuilt, C11.rebuild cfg pol p.1 p.2.snapNow p.2.snapClk (ticksOf (C11.legRun cfg pol p.1 p.2).log) = some rebuilt ∧
+        eraseSt rebuilt = eraseSt (C11.legRun cfg pol p.1 p.2).st) ∧
+      eraseSt (C11.legNext cfg pol p.1 p.2) = eraseSt (roundtrip cfg (C11.legRun cfg pol p.1 p.2).st) ∧
+      ∀ n, (p.1.workers n).inProg = [] := by
+  have hmain : ∀ (legs : List C11.Leg) (init : State), (∀ n, (init.workers n).inProg = []) →
+      ∀ p ∈ C11.session cfg pol init legs,
+        (C11.legRun cfg pol p.1 p.2).st =
+          C11.replay cfg pol (rewind cfg p.1 p.2.now).1 (C11.legRun cfg pol p.1 p.2).log ∧
+        (∃ rebuilt, C11.rebuild cfg pol p.1 p.2.snapNow p.2.snapClk (ticksOf (C11.legRun cfg pol p.1 p.2).log) = some rebuilt ∧
+          eraseSt rebuilt = eraseSt (C11.legRun cfg pol p.1 p.2).st) ∧
+        eraseSt (C11.legNext cfg pol p.1 p.2) = eraseSt (roundtrip cfg (C11.legRun cfg pol p.1 p.2).st) ∧
+        ∀ n, (p.1.workers n).inProg = [] := by
+    intro legs
+    induction legs with
+    | nil => intro init _ p hp; cases hp
+    | cons l ls ih =>
+      intro init hinit p hp
+      simp only [C11.session, List.mem_cons] at hp
+      obtain ⟨d, hd, _, _, _, hdes⟩ := C11_to_dict_describes_run cfg pol hpol init l.now l.start l.timeout l.acts l.snapNow l.snapClk
+      have hnext : C11.legNext cfg pol init l = deser cfg d := by
+        simp only [C11.legNext, C11.legRun, hd]
+      rcases hp with hp | hp
+      · subst hp
+        refine ⟨C11_replay_invariant cfg pol init l.now l.start l.timeout l.acts,
+          C11_rebuild_agrees_with_live cfg pol hpol init l.now l.start l.timeout l.acts l.snapNow l.snapClk, ?_, hinit⟩
+        rw [hnext]
+        exact hdes
+      · apply ih (C11.legNext cfg pol init l) _ p hp
+        intro n
+        rw [hnext]
+        exact C11.deser_inProg cfg d n
+  exact hmain legs _ (C11.deser_inProg cfg s)
+
+/-- non-vacuity: a run is snapshotted with its only invocation in flight; the loaded context has it
+queued (`init_state`), the resumed run's rewind starts it again, it finishes, and the second
+snapshot is taken of a run that completed -/
+def C11.stopEv : Ev := { ty := 1, kind := .stop, uid := 2 }
+def C11.legs2 : List C11.Leg :=
+  [{ now := 0, start := some C11.startEv, timeout := none, acts := [.drain], snapNow := 5, snapClk := fun _ => 5 },
+   { now := 10, start := none, timeout := none, acts := [.workerDone 0 0 [.result (some C11.stopEv)], .drain],
+     snapNow := 20, snapClk := fun _ => 20 }]
+example :
+    (C11.session C11.exCfg C11.pol0 (deser C11.exCfg (ser C11.exCfg initState)) C11.legs2).map
+      (fun p => (p.1.isRunning, (p.1.workers 0).queue.map (·.ev.uid), (C11.legRun C11.exCfg C11.pol0 p.1 p.2).log.length,
+        (C11.legRun C11.exCfg C11.pol0 p.1 p.2).outcome.isSome)) =
+      [(false, [], 1, false), (true, [1], 1, true)] := by decide
+
+/-! ### what `rewind_in_progress` keeps; it is not idempotent -/
+
+def C11.cfg2w : Cfg := { steps := [{ name := 0, accepted := [0], numWorkers := 2, hasRetry := false }] }
+def C11.evA : Ev := { ty := 0, kind := .plain, uid := 11 }
+def C11.evB : Ev := { ty := 0, kind := .plain, uid := 12 }
+def C11.st2w : State :=
+  { isRunning := true, workers := fun _ => { queue := [{ ev := C11.evA }, { ev := C11.evB }] } }
+
+/-- **rewind on start**, for every state: the running flag, and for every configured step the
+buffers and the waiters, are kept; the invocations that were in progress come back first, in
+REVERSE order, then the queue (`servedEvs` = in-progress then queued events); unconfigured steps
+are untouched; it never raises. -/
+theorem C11_rewind_keeps (cfg : Cfg) (hwf : cfg.WF) (st : State) (now : Int) :
+    (rewind cfg st now).1.isRunning = st.isRunning ∧
+    (∀ c ∈ cfg.steps,
+      ((rewind cfg st now).1.workers c.name).collected = (st.workers c.name).collected ∧
+      ((rewind cfg st now).1.workers c.name).waiters = (st.workers c.name).waiters ∧
+      servedEvs ((rewind cfg st now).1.workers c.name) =
+        ((st.workers c.name).inProg.map (·.ev)).reverse ++ (st.workers c.name).queue.map (·.ev)) ∧
+    (∀ n, n ∉ cfg.names → (rewind cfg st now).1.workers n = st.workers n) ∧
+    (rewind cfg st now).2.contains .crash = false := by
+  have hnd : ((sortedSteps cfg).map (·.name)).Nodup := (sortedSteps_names_perm cfg).nodup_iff.mpr hwf
+  refine ⟨rewindLoop_running now _ _ _, fun c hc => ?_, fun n hn => ?_, rewind_no_crash cfg st now⟩
+  · have hat : (rewind cfg st now).1.workers c.name = (rewindStep c (st.workers c.name) now).1 :=
+      rewindLoop_at now (sortedSteps cfg) st [] hnd c (mem_sortedSteps_iff.mpr hc)
+    rw [hat]
+    exact ⟨(rewindStep_collected c _ now).1, (rewindStep_collected c _ now).2, rewindStep_order c _ now⟩
+  · apply rewindLoop_other
+    intro hm
+    exact hn ((sortedSteps_names_perm cfg).mem_iff.mp hm)
+
+example : C11.cfg2w.WF ∧
+    servedEvs ((rewind C11.cfg2w (rewind C11.cfg2w C11.st2w 0).1 0).1.workers 0) = [C11.evB, C11.evA] ∧
+    servedEvs ((rewind C11.cfg2w C11.st2w 0).1.workers 0) = [C11.evA, C11.evB] :=
+  ⟨by unfold Cfg.WF; decide, by decide, by decide⟩
+
+/-- "rewinding a rewound state changes nothing (timestamps aside)" -/
+def C11_statement_rewind_idempotent : Prop :=
+  ∀ (cfg : Cfg), cfg.WF → ∀ (st : State) (now now' : Int),
+    eraseSt (rewind cfg (rewind cfg st now).1 now').1 = eraseSt (rewind cfg st now).1
+
+/-- **refuted**: two invocations in flight on a 2-worker step swap worker ids under a second
+rewind (so a rebuild that rewinds a mid-run state — seeded change C11-a — no longer matches the
+worker ids of the ticks recorded afterwards).  The rewind belongs to the start of a run only. -/
+theorem C11_refuted_rewind_idempotent : ¬ C11_statement_rewind_idempotent := by
+  intro h
+  have h1 := h C11.cfg2w (by unfold Cfg.WF; decide) C11.st2w 0 0
+  have h2 := congrArg (fun s => (s.workers 0).inProg.map (fun i => (i.wid, i.ev.uid))) h1
+  revert h2
+  decide
+
+example : ((rewind C11.cfg2w C11.st2w 0).1.workers 0).inProg.map (fun i => (i.wid, i.ev.uid)) = [(0, 11), (1, 12)] ∧
+    ((rewind C11.cfg2w (rewind C11.cfg2w C11.st2w 0).1 0).1.workers 0).inProg.map (fun i => (i.wid, i.ev.uid)) = [(0, 12), (1, 11)] := by
+  decide
+
+/-- **the strongest true part**: when no step has more than one worker a second rewind changes
+nothing but `first_attempt_at` (worker 0 is re-assigned to the same invocation) -/
+theorem C11_rewind_idempotent_partial (cfg : Cfg) (hwf : cfg.WF) (h1 : cfg.steps.all (fun c => c.numWorkers ≤ 1) = true)
+    (st : State) (now now' : Int) :
+    eraseSt (rewind cfg (rewind cfg st now).1 now').1 = eraseSt (rewind cfg st now).1 :=
+  simSt_iff_erase.mp (rewind_idem_single cfg hwf (fun c hc => by simpa using List.all_eq_true.mp h1 c hc) st now now')
+
+example : C11.exCfg.WF ∧ C11.exCfg.steps.all (fun c => c.numWorkers ≤ 1) = true ∧
+    ((rewind C11.exCfg { isRunning := true, workers := fun _ => { queue := [{ ev := C11.evA }, { ev := C11.evB }] } } 5).1.workers 0).inProg.map
+      (fun i => (i.wid, i.ev.uid, i.firstAt)) = [(0, 11, 5)] := by
+  refine ⟨by unfold Cfg.WF; decide, by decide, by decide⟩
+
+/-! ### the recording discipline over whole histories -/
+
+/-- the ticks the runner reduced along a schedule, with the clock of the reduction: a `drain` of
+a non-empty buffer in a run that has not ended, whose reduction did not raise -/
+def C11.drained (cfg : Cfg) (pol : Policy) : Runner → List Act → List (Tick × Int)
+  | _, [] => []
+  | r, a :: as =>
+    (match a, r.outcome, r.buf with
+      | .drain, none, t :: _ => if (reduce cfg pol t r.st r.now).2.contains .crash then [] else [(t, r.now)]
+      | _, _, _ => []) ++ C11.drained cfg pol (r.step cfg pol a) as
+
+/-- **every tick reduced is recorded exactly once, in order, with nothing else**: over any
+schedule the log grows by exactly the sequence of ticks popped off the buffer and reduced. -/
+theorem C11_log_is_reduced_ticks (cfg : Cfg) (pol : Policy) :
+    ∀ (acts : List Act) (r : Runner), (Runner.run cfg pol r acts).log = r.log ++ C11.drained cfg pol r acts
+  | [], r => by simp [Runner.run, C11.drained]
+  | a :: as, r => by
+    have ih := C11_log_is_reduced_ticks cfg pol as (r.step cfg pol a)
+    simp only [Runner.run, List.foldl_cons] at ih ⊢
+    rw [ih]
+    simp only [C11.drained, ← List.append_assoc]
+    congr 1
+    unfold Runner.step
+    cases ho : r.outcome with
+    | some o => cases a <;> simp
+    | none =>
+      simp only [Option.isSome_none, Bool.false_eq_true, if_false]
+      cases a with
+      | drain =>
+        cases hb : r.buf with
+        | nil => simp
+        | cons t rest =>
+          simp only
+          split
+          · simp [Runner.finish]
+          · exact (C11.execCmds_st_log _ _).2
+      | workerDone s w res => simp only; split; · simp
+                              split <;> simp
+      | pull => simp only; split; · simp
+                split <;> simp
+      | timer => simp only; split <;> simp
+      | advance dt => simp
+      | external t => simp only; split <;> simp
+      | stepWrite p => simp
+
+example :
+    (C11.drained C11.exCfg (fun _ _ _ _ => .stop) (Runner.init C11.exCfg initState 0 (some C11.startEv) none)
+      [.drain, .advance 3, .workerDone 0 0 [.result none], .drain, .drain]).map (·.2) = [0, 3, 3] := by decide
+
+/-! ### the recording discipline, tied to the source -/
+
+/-- **one `drain` = one `_process_tick`**: the head of the buffer is reduced on the current state at
+the current clock; if the reducer raises, nothing is recorded, the state is left as it was and the
+run is over; otherwise the new state is the reduction, exactly `(tick, now)` is appended to the log
+— before any command runs: commands touch neither — and the rest of the buffer stays in front. -/
+theorem C11_drain_records_what_it_reduces (cfg : Cfg) (pol : Policy) (r : Runner) (t : Tick) (rest : List Tick)
+    (hrun : r.outcome = none) (hb : r.buf = t :: rest) :
+    ((reduce cfg pol t r.st r.now).2.contains .crash = true →
+      (r.step cfg pol .drain).st = r.st ∧ (r.step cfg pol .drain).log = r.log ∧
+        (r.step cfg pol .drain).outcome = some .crashed) ∧
+    ((reduce cfg pol t r.st r.now).2.contains .crash = false →
+      (r.step cfg pol .drain).st = (reduce cfg pol t r.st r.now).1 ∧
+        (r.step cfg pol .drain).log = r.log ++ [(t, r.now)]) := by
+  unfold Runner.step
+  simp only [hrun, Option.isSome_none, Bool.false_eq_true, if_false, hb]
+  constructor
+  · intro hc
+    simp only [hc, if_true, Runner.finish, and_self]
+  · intro hc
+    simp only [hc, Bool.false_eq_true, if_false]
+    exact ⟨(C11.execCmds_st_log _ _).1, (C11.execCmds_st_log _ _).2⟩
+
+example :
+    let r := Runner.init C11.exCfg initState 0 (some C11.startEv) none
+    r.outcome = none ∧ r.buf = [.addEvent { ev := C11.startEv } none] ∧
+      (reduce C11.exCfg C11.pol0 (.addEvent { ev := C11.startEv } none) r.st r.now).2.contains .crash = false := by decide
+
+/-- **source shape** (regenerated from `/repo` by `harness/gen/ticklog.py` on every run; a change
+of any of these shapes stops this theorem from checking).
+`_process_tick` = reduce-in-a-re-raising-try; `on_tick`; clean-up on exit commands; commands;
+`after_tick` — the order `Runner.step … .drain` models (`C11_drain_records_what_it_reduces`).
+`on_tick` is awaited once in the module, with the tick that was reduced on `self.state`;
+`self.state` is written in three places only (`__init__`: the `init_state` argument, `run`: the
+rewind, before the loop, `_process_tick`: the reduction) — `Runner.init`, `Runner.step`;
+`_process_tick` has one call site and gets `tick_buffer.pop(0)`.
+`rebuild_state_from_ticks` = `replayTicks`: rewind the given state first, one `_reduce_tick` per
+given tick in order, no early exit, commands dropped, clock `time.time()` for both, state returned.
+`plugins/basic.py`: `on_tick` appends to `queues.ticks`, which is otherwise only initialised to
+`[]`; `replay()` returns that list and `init_state` the state handed to the run function.
+`external_context.py`: `_state` = rebuild of (`init_state`, `replay()`); `running_steps()` and
+`to_dict()` are computed from `_state` (`C11.runningSteps`, `C11.toDict`). -/
+theorem C11_source_shape :
+    GenTickLog.processTick =
+      ["try[now,state:=_reduce_tick]reraise", "on_tick", "cleanup_if[CommandFailWorkflow,CommandHalt]", "for_commands",
+        "after_tick", "return"] ∧
+    GenTickLog.onTickArgIsReducedTick = true ∧ GenTickLog.onTickCallSites = 1 ∧ GenTickLog.processTickCallSites = 1 ∧
+    GenTickLog.stateWriters =
+      [("__init__", "init_state"), ("run", "rewind_in_progress"), ("_process_tick", "_reduce_tick")] ∧
+    GenTickLog.tickFromBufferFront = true ∧ GenTickLog.rewindBeforeLoop = true ∧
+    GenTickLog.rebuildRewindsFirst = true ∧ GenTickLog.rebuildReducesPerTick = 1 ∧
+    GenTickLog.rebuildLoopHasEarlyExit = false ∧ GenTickLog.rebuildIteratesGivenTicks = true ∧
+    GenTickLog.rebuildDropsCommands = true ∧ GenTickLog.rebuildClockIsWallClock = true ∧
+    GenTickLog.rebuildReturnsState = true ∧
+    GenTickLog.onTickAppends = true ∧ GenTickLog.ticksWrites = ["__init__:assign[]", "on_tick:append"] ∧
+    GenTickLog.replayReturnsTicks = true ∧ GenTickLog.initStateReturnsQueues = true ∧
+    GenTickLog.initStateWrites = ["__init__:=init_state"] ∧ GenTickLog.sameInitStateToQueuesAndRun = true ∧
+    GenTickLog.stateIsRebuildOfInitAndLog = true ∧ GenTickLog.tickLogIsAdapterReplay = true ∧
+    GenTickLog.runningStepsShape = "[step for step in state.workers.keys() if state.workers[step].in_progress]" ∧
+    GenTickLog.toDictSerialisesState = true := by
+  decide
